@@ -8,3 +8,7 @@ open Cst.C04
 #print axioms node_shared
 #print axioms big_node_not_cached
 #print axioms threshold_fact
+#print axioms nodeUniq_node
+#print axioms node_answer_entry
+#print axioms node_entry_stable
+#print axioms node_entry_stable_impl
